@@ -16,6 +16,8 @@ R5 enabled     : make_prf reports enabled=false exactly when the new credential 
 R6 client validation : the extension-input conversions precede (cut) the authenticator call; each malformed shape has its
                  error row in the decision tables (evalByCredential at registration; evalByCredential non-empty without allow list;
                  empty / undecodable / unlisted key; pre-hashed input not 32 bytes).
+R7 first/second plumbing : wherever a first/second record is built from another (conversions between the CTAP and WebAuthn
+                 forms, helpers, HmacSecretSaltOrOutput::new) `first` derives from no `second` and `second` from no `first`.
 Not decided: that the SHA-256/HMAC crates compute those functions.
 """
 from . import core, flow, names, normal, summary
@@ -634,6 +636,48 @@ def run(chk):
         has_tf = any(names.call_is(t3, "TryFrom::try_from") and "Bytes" in (t3.get("callee_full") or "") for nb in p.nested_of(gc) for b3, t3 in nb.calls())
         chk.ob("R6 client validation", "R6|authentication|empty-or-unlisted-key", oks, where(gc), "%s — must be equivalent to 'some key is empty or unlisted': %s" % (polw, oks))
         chk.ob("R6 client validation", "R6|authentication|undecodable-key", undec and has_tf, where(gc), "Bytes::try_from(key) failure maps to SyntaxError: %s" % (undec and has_tf))
+    # ---------------- R7: first stays first, second stays second
+    # Wherever a record with members `first` / `second` (salts, outputs, results — CTAP and WebAuthn forms) is built from
+    # another one, or the salt pair is packed with HmacSecretSaltOrOutput::new(a, b): what goes into `first` derives from no
+    # `second` and what goes into `second` from no `first`.  Decided on the value terms of every such construction site in
+    # the three crates (closures applied), so it covers conversions, helpers and inline literals alike.
+    pair_adts = {k for k, a in p.adts.items() if a.get("variants") and {"first", "second"} <= {f["name"] for f in a["variants"][0]["fields"]}}
+
+    def origins(t):
+        out = set()
+        for x in sub(t):
+            if isinstance(x, tuple) and len(x) == 3 and x[0] == "field" and x[2] in ("first", "second"):
+                out.add(x[2])
+            if isinstance(x, tuple) and len(x) == 4 and x[0] == "call" and isinstance(x[1], str) and (x[1].endswith("HmacSecretSaltOrOutput::first") or x[1].endswith("HmacSecretSaltOrOutput::second")):
+                out.add(x[1].rsplit("::", 1)[-1])
+        return out
+    n_sites, crossed = 0, []
+    for b7 in p.all_bodies:
+        if b7.crate not in ("passkey_types", "passkey_client", "passkey_authenticator") or b7.def_kind not in ("Fn", "AssocFn", "Closure") or "::tests::" in b7.path or b7.path.endswith("::tests"):
+            continue
+        T7 = None
+        sites7 = [(bb, i, rv, None) for bb, i, rv in [(bb, i, s["rv"]) for bb, blk in enumerate(b7.blocks) if not blk["cleanup"] for i, s in enumerate(blk["stmts"]) if s["k"] == "assign" and s["rv"]["k"] == "agg" and s["rv"].get("ak") == "adt" and s["rv"].get("adt") in pair_adts]]
+        calls7 = [(bb, t) for bb, t in b7.calls() if names.call_is(t, "HmacSecretSaltOrOutput::new") and len(t["args"]) == 2]
+        if not sites7 and not calls7:
+            continue
+        T7 = flow.Terms(p, b7)
+        pairs = []
+        for bb, i, rv, _x in sites7:
+            fl = dict(zip(rv["fields"], rv["ops"]))
+            pairs.append((bb, N.norm(T7.operand(fl["first"], bb, i)), N.norm(T7.operand(fl["second"], bb, i))))
+        for bb, t in calls7:
+            pairs.append((bb, N.norm(T7.operand(t["args"][0], bb, "t")), N.norm(T7.operand(t["args"][1], bb, "t"))))
+        for bb, f1, f2 in pairs:
+            o1, o2 = origins(f1), origins(f2)
+            if not o1 and not o2:
+                continue
+            n_sites += 1
+            if "second" in o1 or "first" in o2:
+                crossed.append("%s: first <- %s, second <- %s" % (where(b7, bb), sorted(o1), sorted(o2)))
+            chk.touched(b7)
+    chk.ob("R7 first/second plumbing", "R7|first-and-second-never-crossed", not crossed and n_sites >= 4, crossed[0].split(":")[0] if crossed else "passkey_types / passkey_client / passkey_authenticator",
+           crossed[0] if crossed else "%d construction sites of first/second records: `first` derives from no `second`, `second` from no `first`" % n_sites)
+    chk.floor("R7", 1)
     chk.floor("R1", 4)
     chk.floor("R2", 5)
     chk.floor("R3", 6)
